@@ -168,7 +168,8 @@ func evalC17(t *testing.T, c *Case, st *Stats, relax Relax) *Violation {
 			for _, m := range ms {
 				want[path.Clean("/"+m.Path)] = m
 			}
-			for p, m := range want {
+			for _, p := range sortedKeys(want) {
+				m := want[p]
 				n, ok := obs[p]
 				if !ok {
 					return mk("member-not-listed-"+phase, fmt.Sprintf("%q is not reachable by listing from the root (root=%q); listed: %v", p, stk.Root, keysOf(obs)))
@@ -206,7 +207,8 @@ func evalC17(t *testing.T, c *Case, st *Stats, relax Relax) *Violation {
 				}
 			}
 			// spellings
-			for p, m := range want {
+			for _, p := range sortedKeys(want) {
+				m := want[p]
 				if p == "/" {
 					continue
 				}
